@@ -42,6 +42,8 @@ def gen_scenario(r, mode=None):
             if 0.06 <= bad < 0.07:
                 po["gk"] = 3
                 po["ns"] = 0
+            if r.random() < 0.08:
+                po["noise"] = r.choice([1, 2, 3])   # template presets PKO-owned metadata (see phasecheck.random_phases)
             objs.append(po)
             if r.random() < 0.7 and not dup and po["gk"] in (1, 2):
                 store.append(gen_member(r, po["gk"], 1 if (po["ns"] or ons) in (0, 1) else po["ns"], nm, uid, okind, okind, rev))
